@@ -177,7 +177,9 @@ class LifeDomain(Domain):
                 and self.analyse is not None:
             summ = self.analyse(f, r[1])
             if summ is not None and summ.has_sites:
-                return None         # applied as a summary in _call
+                if not getattr(summ, 'inline_only', False):
+                    return None     # applied as a summary in _call
+                summ.inlined = True
         return r
 
     def init_state(self, st, func, cls):
@@ -425,7 +427,8 @@ class LifeDomain(Domain):
         # ---- calls of World methods that carry their own sites: summary ----
         if d is not None and d.startswith('self.') and d.count('.') == 1:
             summ = self.summaries.get(d.split('.')[1])
-            if summ is not None and summ.has_sites:
+            if summ is not None and summ.has_sites and not getattr(
+                    summ, 'inline_only', False):
                 self._apply_summary(st, summ, cn, fn, ev)
                 return
         # ---- protocol actions ----------------------------------------------
@@ -865,6 +868,7 @@ def analyse_world(program, rep, prop, tables, rules_prefix):
     sites_seen = set()
     summaries = {}
     inprogress = set()
+    per_method = {}
     total = {'paths': 0}
 
     def analyse(m, c):
@@ -879,8 +883,10 @@ def analyse_world(program, rep, prop, tables, rules_prefix):
         total['paths'] += len(exits)
         stats[m.qualname] = {'paths': len(exits), 'cut': w.cuts}
         summ = Summary(m)
+        results_m = {}
+        problems_m = []
         for fn, node, why in dom.problems:
-            problems.append((fn, node, why))
+            problems_m.append((fn, node, why))
         for ex in exits:
             st = ex.state
             if ex.kind == 'raise':
@@ -906,7 +912,7 @@ def analyse_world(program, rep, prop, tables, rules_prefix):
             summ.exits.append({'entry': entry,
                                'vacated': set(st.data['vacated']),
                                'rows_gone': set(st.data['rows_gone'])})
-            loose = check_path(st, m, results, problems)
+            loose = check_path(st, m, results_m, problems_m)
             if st.data['sites']:
                 for a in loose:
                     loose_all.append((m.qualname, a))
@@ -927,6 +933,14 @@ def analyse_world(program, rep, prop, tables, rules_prefix):
                     d['ok'] += 1
                 else:
                     d['bad'].append(path_summary(st))
+        # A private helper that performs only part of a protocol (its own
+        # analysis reports violations) is judged in the context of its
+        # callers: it is inlined there instead of being summarised.
+        private = m.name.startswith('_') and not m.name.startswith('__')
+        summ.inline_only = private and (any(v['bad'] for v in
+                                            results_m.values())
+                                        or bool(problems_m))
+        per_method[m.name] = (summ, results_m, problems_m)
         inprogress.discard(m.name)
         summaries[m.name] = summ
         return summ
@@ -935,6 +949,14 @@ def analyse_world(program, rep, prop, tables, rules_prefix):
         for m in c.methods.values():
             if m.kind in ('method',):
                 analyse(m, c)
+    for name, (summ, results_m, problems_m) in per_method.items():
+        if summ.inline_only and getattr(summ, 'inlined', False):
+            continue        # reported through the callers that inline it
+        for k, v in results_m.items():
+            r = results.setdefault(k, {'ok': 0, 'bad': []})
+            r['ok'] += v['ok']
+            r['bad'] += v['bad']
+        problems.extend(problems_m)
     return dict(results=results, problems=problems, npaths=total['paths'],
                 stats=stats, loose=loose_all, relay_wipe=relay_wipe,
                 selfreg=selfreg, sites=sites_seen, summaries=summaries)
